@@ -163,6 +163,18 @@ class AbstractDateTime(AnyAtomicType):
             case _:
                 return cls.fromstring(value)
 
+    @classmethod
+    def validate(cls, value: object) -> None:
+        if isinstance(value, cls):
+            return
+        elif isinstance(value, str):
+            try:
+                cls.fromstring(value)
+            except OverflowError:
+                raise cls._invalid_value(value) from None
+        else:
+            raise cls._invalid_type(value)
+
     __slots__ = ('_dt', '_year')
 
     def __init__(self, year: int = 2000, month: int = 1, day: int = 1, hour: int = 0,
@@ -1016,6 +1028,18 @@ class Duration(AnyAtomicType):
                 return cls.fromstring(value.value)
             case _:
                 return cls.fromstring(value)
+
+    @classmethod
+    def validate(cls, value: object) -> None:
+        if isinstance(value, cls):
+            return
+        elif isinstance(value, str):
+            try:
+                cls.fromstring(value)
+            except OverflowError:
+                raise cls._invalid_value(value) from None
+        else:
+            raise cls._invalid_type(value)
 
     __slots__ = ('months', 'seconds')
 
